@@ -5,7 +5,7 @@ from sysbase import SysBase, geometry
 class C01(SysBase):
     id = "C01"
     proof_target = "Props/C01.vo"
-    theorems = ["C01_writes_verified", "C01_done_after_write", "C01_mismatch_discards", "C01_only_done_makes_have", "C01_owned_stays", "C01_pair_invariant", "C01_marked_is_verified", "C01_env_steps", "C01_one_task_per_address"]
+    theorems = ["C01_writes_verified", "C01_done_after_write", "C01_mismatch_discards", "C01_only_done_makes_have", "C01_owned_stays", "C01_pair_invariant", "C01_marked_is_verified", "C01_env_steps", "C01_one_task_per_address", "C01_tracker_answer_one_task_per_address"]
     coq_header = "From Rdest Require Import Base Corr.Sys.\nOpen Scope N_scope.\nDefinition codes := codes01.\n"
     rule = ("end-to-end runs (real Session, real PeerHandler tasks, real piece files) against 1-4 scripted remote peers of which "
             "most misbehave: corrupt every k-th block, answer for another offset/piece, duplicate every block, send garbage, "
